@@ -133,7 +133,8 @@ type Result struct {
 	SwitchSig   uint64
 	Evals       int64 // executions performed for this scenario
 	Pairs       []uint16
-	Invalid     bool // draft was statically invalid: discarded, not counted
+	Invalid     bool        // draft was statically invalid: discarded, not counted
+	Recorded    []sched.Run // decisions actually taken by the (last) scheduled run
 }
 
 func NewResult() *Result { return &Result{Counters: map[string]int64{}} }
@@ -148,12 +149,20 @@ func (r *Result) Violate(class, format string, args ...any) {
 
 func (r *Result) Count(name string, n int64) { r.Counters[name] += n }
 
+// Mix folds an observation into the run's fingerprint (determinism self-test).
+func (r *Result) Mix(parts ...string) {
+	for _, p := range parts {
+		r.Fingerprint = mix64(r.Fingerprint, hashStr(p))
+	}
+}
+
 func (r *Result) addSched(s *sched.Sched) {
 	r.Ticks += s.Now()
 	r.Points += s.Points()
 	r.Switches += s.Switches()
 	r.SwitchSig = mix64(r.SwitchSig, s.SwitchSig())
 	r.Fingerprint = mix64(r.Fingerprint, s.Fingerprint())
+	r.Recorded = s.Recorded()
 	for w, bits := range s.Pairs {
 		for b := 0; bits != 0; b++ {
 			if bits&1 != 0 {
